@@ -113,6 +113,33 @@ def run(rep, tier="quick", replay=None, evidence_dir=None):
         rep.ob("C08.R4", "resolve_enum does not fall back to the enclosing field's default for an unknown symbol", not uses4,
                "the specification's fallback for an unknown symbol is the reader *enum's* default; using the record field's default invents a value where an error is required", re_.loc())
 
+    # ---------------------------------------------------------------- R5 union branch selection is by type
+    rep.rule("C08.R5", "resolve_union resolves the value against the branch found by type (find_schema_with_known_schemata), never by the writer's branch position")
+    ru = prog.bodies.get("types::Value::resolve_union")
+    if ru is None:
+        rep.anchor_error("C08.R5", "types::Value::resolve_union")
+    else:
+        fnd = calls_named(ru, "schema::union::UnionSchema::find_schema_with_known_schemata")
+        res = []
+        for b in prog.with_closures(ru):
+            res += [(b, bi, t) for bi, t in calls_named(b, "types::Value::resolve_internal")]
+        ok = len(fnd) == 1 and len(res) >= 1
+        bad = []
+        if ok:
+            from mir import forward_taint
+            tainted = forward_taint(ru, [fnd[0][1]["dest"]["l"]], through_calls=True)
+            for b, bi, t in res:
+                a = t["args"][1]
+                if b is not ru or op_local(a) not in tainted:
+                    bad.append(b.loc(bi))
+            # no positional lookup of a branch
+            pos = [bi for bi, t in ru.calls() if callee_names(t["func"])[0].endswith(("UnionSchema::get_variant", "UnionSchema::variants")) or
+                   (callee_names(t["func"])[0] == "core::slice::<impl [T]>::get" and "Schema" in str(t["func"].get("ga")))]
+            if pos:
+                bad.append("positional branch lookup at " + ru.loc(pos[0]))
+        rep.ob("C08.R5", "every branch resolve_union resolves against comes from the by-type lookup", ok and not bad,
+               "branch taken from elsewhere: %s (a writer union that is not position-compatible with the reader union is then read into the wrong branch)" % bad, ru.loc())
+
     rep.floor("C08", "obligations", len(rep.obligations), 500)
     rep.not_decided = ["union branch selection by type, default values, idempotence, validate(resolved, R): value-level, need execution",
                        "logical-type *values* read with a reader of the underlying type (date -> long ...): demanded by C09.R1 where the compatibility checker promises it"]
